@@ -122,8 +122,16 @@ def c16_2(c: Ctx) -> None:
             c.fail(u, 'wait on the run-loop task reachable before _is_running = False', 'the run loop keeps taking events while stop() waits for it', node=wn.ast)
         # queue shutdown: allowed to be skipped only when there is no queue
         sh_ifs = {id(q.enclosing(s.ast, (ast.If,))) for s in shuts}
+        qatom = f'{self_}.event_queue'
+        fq = Facts(lambda a: a == qatom)
+
+        def no_queue(test: ast.AST) -> bool:
+            # the test being false means there is no queue (`if self.event_queue:` / `if self.event_queue is not None:`)
+            env_ = fq.assume(test, False, {})
+            return env_ is not None and fq.eval(ast.parse(qatom, mode='eval').body, env_) is False
+
         p = search([(g.entry, ())], is_target=lambda n, d: n is wn, is_barrier=lambda n, d: n in shuts,
-                   edge_ok=lambda n, e, d: None if (n.kind == 'if' and id(n.ast) in sh_ifs and e.label == 'false' and U(n.ast.test) == f'{self_}.event_queue') else d)
+                   edge_ok=lambda n, e, d: None if (n.kind == 'if' and id(n.ast) in sh_ifs and e.label == 'false' and no_queue(n.ast.test)) else d)
         if p is None and shuts:
             c.ok(where(u, wn.ast), 'event_queue.shutdown() precedes the wait (a blocked get() is released)')
         else:
